@@ -58,7 +58,14 @@ Definition dec1 (buf : list N) : res :=
           | [] => More
           | b2 :: r2 => if cont b2 then Got ((b0 - 0xE0) * 4096 + (b1 - 0x80) * 64 + (b2 - 0x80)) r2 else Bad
           end
-        else Bad
+        else
+          (* unicode_decode_utf8, "Truncated surrogate code in range D800-DFFF": ED A0..BF with nothing
+             after it is kept as an incomplete sequence by the stateful decoder (found by the
+             correspondence); with a third byte, or at the final flush, it is an error *)
+          match r1 with
+          | [] => if (b0 =? 0xED) && cont b1 then More else Bad
+          | _ :: _ => Bad
+          end
       end
     else if b0 <? 0xF5 then
       match r0 with
